@@ -9,7 +9,7 @@
 //!   exec / sdl : {"id","mode","toks":[[k,s]|[k,"",raw]],"style":n}   tokens rendered with seeded ignored tokens
 //!                (style 0: none where legal, 1: single spaces, >=2: random + respelling; "seps":[..] = verbatim separators)
 //!   lex        : {"id","mode":"lex","text":[classes]}                  `{f(a:[` text LF `])}`
-//!   deep       : {"id","mode":"deep","depth":d,"shape":"field"|"inline"|"mixed"}
+//!   deep       : {"id","mode":"deep","depth":d,"shape":field|inline|inlineon|mixed|mixedon|inlinelast|fieldlast,"ctx":anon|query|frag}
 use async_graphql_parser::types::*;
 use async_graphql_parser::{Error, parse_query, parse_schema};
 use async_graphql_value::{ConstValue, Value};
@@ -400,19 +400,40 @@ fn render(toks: &mut Vec<J>, style: u64, rng: &mut StdRng) -> (String, Vec<&'sta
     (src, gaps, seps, lead, trail)
 }
 
-fn deep_tokens(depth: usize, shape: &str) -> Vec<J> {
-    // `depth` nested selection sets: { a { a { ... a ... } } }
+/// `depth` selection sets open at once (nesting = depth - 1), the descents made of fields, inline fragments
+/// (with / without type condition) or alternations, inside an anonymous / named operation or a fragment definition.
+fn deep_tokens(depth: usize, shape: &str, ctx: &str) -> Vec<J> {
+    let p = |s: &str| json!(["p", s]);
+    let n = |s: &str| json!(["n", s]);
     let mut t = Vec::new();
+    match ctx {
+        "anon" => {}
+        "query" => { t.push(n("query")); t.push(n("b")); }
+        "frag" => { t.push(n("fragment")); t.push(n("b")); t.push(n("on")); t.push(n("a")); }
+        _ => tool_error("unknown deep ctx"),
+    }
     for lvl in 0..depth {
-        t.push(json!(["p", "{"]));
+        t.push(p("{"));
         if lvl + 1 < depth {
-            let inline = match shape { "field" => false, "inline" => true, _ => lvl % 2 == 1 };
-            if inline { t.push(json!(["p", "..."])); } else { t.push(json!(["n", "a"])); }
+            let kind = match shape {
+                "field" => 0, "inline" => 1, "inlineon" => 2,
+                "mixed" => if lvl % 2 == 1 { 1 } else { 0 },
+                "mixedon" => if lvl % 2 == 1 { 2 } else { 0 },
+                "inlinelast" => if lvl + 2 == depth { 1 } else { 0 },
+                "fieldlast" => if lvl + 2 == depth { 0 } else { 2 },
+                _ => tool_error("unknown deep shape"),
+            };
+            match kind {
+                0 => t.push(n("a")),
+                1 => t.push(p("...")),
+                _ => { t.push(p("...")); t.push(n("on")); t.push(n("a")); }
+            }
         } else {
-            t.push(json!(["n", "a"]));
+            t.push(n("a"));
         }
     }
-    for _ in 0..depth { t.push(json!(["p", "}"])); }
+    for _ in 0..depth { t.push(p("}")); }
+    if ctx == "frag" { t.push(p("{")); t.push(n("a")); t.push(p("}")); }
     t
 }
 
@@ -440,7 +461,7 @@ fn main() {
         match mode.as_str() {
             "exec" | "sdl" | "deep" => {
                 let mut toks: Vec<J> = if mode == "deep" {
-                    deep_tokens(c["depth"].as_u64().unwrap() as usize, c["shape"].as_str().unwrap())
+                    deep_tokens(c["depth"].as_u64().unwrap() as usize, c["shape"].as_str().unwrap(), c["ctx"].as_str().unwrap_or("anon"))
                 } else { c["toks"].as_array().unwrap().clone() };
                 let style = c["style"].as_u64().unwrap_or(1);
                 let cid = id.as_u64().unwrap_or(0);
